@@ -33,7 +33,7 @@ def acc_updates(f):
         if n['k'] == 'CompoundAssignOperator' and n.get('op') == '+=':
             x = f.strip(f.ch(n)[0])
             if x is not None and x['k'] == 'DeclRefExpr' and x.get('dk') == 'binding':
-                out.append((x['name'], '+=', unc(term(f, f.ch(n)[1])), n))
+                out.append((x['name'], '+=', unc(term(f, f.ch(n)[1], res=True)), n))
     return out
 
 
@@ -100,6 +100,35 @@ def node_rule(S, f, cls_size, what):
     S.ob('R-ACC', fname, 'used <= reserved', oku,
          'used grows by sizeof(%s) minus a product of non-negative terms' % what if oku else
          'the used-bytes term is not `sizeof(%s) - <non-negative>`: %s' % (what, [term_str(x[2]) for x in u_]), loc=f.loc)
+    # the free capacity is counted against the node's own slot array: (extent - occupied) * sizeof(element)
+    import re as _re
+    facts = S.facts()
+    rec = facts.records.get(Y + what) or {}
+    want = None
+    for fld in rec.get('fields', []):
+        m = _re.match(r'std::array<(.*), (\d+)>$', fld.get('type') or '')
+        if m and (m.group(1) == Y + 'link_or_value' or m.group(1) == Y + 'base_node *'):
+            esz = (facts.records.get(m.group(1)) or {}).get('size') if m.group(1) == Y + 'link_or_value' else 8
+            want = (int(m.group(2)), esz)
+    if want is None:
+        raise AnalysisBroken('R-ACC: slot array of %s not found in its record layout' % what)
+    consts = []
+
+    def collect(t):
+        t = unc(t)
+        if t[0] == 'const':
+            consts.append(t[1])
+        elif t[0] == 'bin':
+            collect(t[2])
+            collect(t[3])
+    if oku:
+        collect(unc(u_[0][2][3]))
+    okc = oku and want[0] in consts and (want[1] in consts or want[1] is None)
+    S.ob('R-ACC', fname, 'free capacity of the node\'s own slot array', okc,
+         'unused part = (%d - occupied) * %s bytes' % want if okc else
+         'the unused part is not computed as (%d - occupied) * %s (extent and element size of %s\'s slot array): '
+         'constants used %s - with a smaller extent a full node reports more used than reserved bytes' % (
+             want[0], want[1], what, sorted(set(consts))), loc=f.loc)
 
 
 def _nonneg(t):
@@ -140,7 +169,11 @@ def rule_acc(S):
                     if t[0] == 'call' and t[1] == 'std::get' and t[3] and t[3][0][0] == 'call' and \
                             t[3][0][1] == Y + 'value::get_gc_info':
                         src_ok = v['name']
-    both = names is not None and {u[0] for u in ups if u[1] == '+=' and u[2] == ('var', src_ok)} == {names[1], names[2]}
+    def _is_len(t):
+        # the allocated size: the local that holds it, or (looked through a constant local) get<..>(get_gc_info(v))
+        return t == ('var', src_ok) or (t[0] == 'call' and t[1] == 'std::get' and t[3] and t[3][0][0] == 'call' and
+                                        t[3][0][1] == Y + 'value::get_gc_info')
+    both = names is not None and {u[0] for u in ups if u[1] == '+=' and _is_len(u[2])} == {names[1], names[2]}
     from checks.C15 import get_index
     idx_ok = any(get_index(lv, v['init']) and get_index(lv, v['init'])[0] == 1 for n in lv.all_nodes()
                  if n['k'] == 'DeclStmt' for v in n.get('vars', []) if 'init' in v)
